@@ -173,3 +173,26 @@ package posix
 // getString reads through an optional string pointer
 //@ func getString
 //@   frame none
+//@   ensures {C01,C06} [absent-is-empty] (str == nil ==> ret0 == "") && (str != nil ==> ret0 == *str)
+
+// ---- C01: the metadata chain of an upload (write side and hand-over; the byte path is outside contracts) ----
+// Each content header is stored under its own attribute, byte for byte, on the object the call names; nothing else is
+// written by storeObjectMetadata. PutObject hands the six headers of the request to it unchanged, stores as ETag
+// attribute the ETag it answers, and HeadObject answers the headers exactly as loadObjectMetaData read them.
+//@ func (*Posix) storeObjectMetadata
+//@   at-call meta.MetadataStorer.StoreAttribute {C01} [written-to-the-named-object] requires $0 == f && $1 == bucket && $2 == object
+//@   at-call meta.MetadataStorer.StoreAttribute {C01} [only-header-attributes] requires $3 == contentTypeHdr || $3 == contentEncHdr || $3 == contentDispHdr || $3 == contentLangHdr || $3 == cacheCtrlHdr || $3 == expiresHdr
+//@   at-call meta.MetadataStorer.StoreAttribute {C01} [ContentType-under-its-own-attribute] when $3 == contentTypeHdr :: requires m.ContentType != nil && len($4) == len(*m.ContentType) && (forall i int :: 0 <= i && i < len($4) ==> $4[i] == (*m.ContentType)[i])
+//@   at-call meta.MetadataStorer.StoreAttribute {C01} [ContentEncoding-under-its-own-attribute] when $3 == contentEncHdr :: requires m.ContentEncoding != nil && len($4) == len(*m.ContentEncoding) && (forall i int :: 0 <= i && i < len($4) ==> $4[i] == (*m.ContentEncoding)[i])
+//@   at-call meta.MetadataStorer.StoreAttribute {C01} [ContentDisposition-under-its-own-attribute] when $3 == contentDispHdr :: requires m.ContentDisposition != nil && len($4) == len(*m.ContentDisposition) && (forall i int :: 0 <= i && i < len($4) ==> $4[i] == (*m.ContentDisposition)[i])
+//@   at-call meta.MetadataStorer.StoreAttribute {C01} [ContentLanguage-under-its-own-attribute] when $3 == contentLangHdr :: requires m.ContentLanguage != nil && len($4) == len(*m.ContentLanguage) && (forall i int :: 0 <= i && i < len($4) ==> $4[i] == (*m.ContentLanguage)[i])
+//@   at-call meta.MetadataStorer.StoreAttribute {C01} [CacheControl-under-its-own-attribute] when $3 == cacheCtrlHdr :: requires m.CacheControl != nil && len($4) == len(*m.CacheControl) && (forall i int :: 0 <= i && i < len($4) ==> $4[i] == (*m.CacheControl)[i])
+//@   at-call meta.MetadataStorer.StoreAttribute {C01} [Expires-under-its-own-attribute] when $3 == expiresHdr :: requires m.Expires != nil && len($4) == len(*m.Expires) && (forall i int :: 0 <= i && i < len($4) ==> $4[i] == (*m.Expires)[i])
+//@ func (*Posix) PutObject
+//@   at-call posix.Posix.storeObjectMetadata {C01} [headers-handed-on-as-supplied] requires $2 == *po.Bucket && $3 == *po.Key && $4.ContentType == po.ContentType && $4.ContentEncoding == po.ContentEncoding && $4.ContentDisposition == po.ContentDisposition && $4.ContentLanguage == po.ContentLanguage && $4.CacheControl == po.CacheControl && $4.Expires == po.Expires
+//@   at-call io.TeeReader {C01} [the-md5-is-fed-by-the-client-body] requires $0 == po.Body
+//@   at-call meta.MetadataStorer.StoreAttribute {C01} [etag-attribute-is-the-md5-of-what-was-copied] when $3 == etagkey && called("posix.Posix.openTmpFile") :: requires called("hash.Hash.Sum") && called("io.Copy") && len($4) == len(etag) && (forall i int :: 0 <= i && i < len($4) ==> $4[i] == etag[i])
+//@   at-return {C01} [answered-etag-is-the-stored-one] when err == nil && called("posix.tmpfile.link") :: ensures ret0.ETag == etag
+//@ func (*Posix) HeadObject
+//@   let md = result("posix.Posix.loadObjectMetaData", 0)
+//@   at-return {C01} [headers-answered-as-read] when err == nil && called("posix.Posix.loadObjectMetaData") :: ensures ret0.ContentType == md.ContentType && ret0.ContentEncoding == md.ContentEncoding && ret0.ContentDisposition == md.ContentDisposition && ret0.ContentLanguage == md.ContentLanguage && ret0.CacheControl == md.CacheControl && ret0.ExpiresString == md.Expires
